@@ -15,8 +15,10 @@
       an x with A·x = b exactly for every right-hand side, every stored multiplier has magnitude ≤ 1 and every
       diagonal entry of U is non-zero (`LUF.c16_general_exact`, by induction over the elimination steps); a matrix
       whose first column is zero is refused (`LUF.c16_zero_first_column`).
-  What is NOT a theorem: "every nonsingular matrix of size ≥ 3 is accepted" (the converse direction), complex
-  sizes ≥ 2 in exact arithmetic, and the rounding-error bound itself, which is a statement about IEEE arithmetic.  For those the model is only *executed*: X-lu runs `LU.decomp` /
+    * every n ≥ 2, real: the factorisation is accepted exactly when the matrix is nonsingular
+      (`LUF.c16_accept_iff_nonsingular`: a refused matrix has a non-trivial kernel vector — constructed by solving the
+      triangular block above the vanishing pivot column — and an accepted one is injective).
+  What is NOT a theorem: complex sizes ≥ 2 in exact arithmetic, and the rounding-error bound itself, which is a statement about IEEE arithmetic.  For those the model is only *executed*: X-lu runs `LU.decomp` /
   `LU.solve` / `LU.decompC` / `LU.solveC` at `Float` beside the Rust routines (factors, pivots, solutions agree
   bit for bit on the exhaustive small-integer set and the random families), and `bin/lu_oracle.py` checks residual,
   multiplier and singularity claims of those same outputs in exact rational arithmetic.
@@ -25,6 +27,7 @@
 -/
 import IvpModel.Proofs.LuLemmas
 import IvpModel.Proofs.LufLemmas
+import IvpModel.Proofs.LufSingular
 
 namespace LU
 noncomputable section
@@ -100,6 +103,25 @@ theorem c16_general_exact_n1 (a0 F : Array K) (ip : Array Nat) (h : decomp 1 1 1
     (b0 : Array K) (hb : b0.size = 1) :
     toFun 1 a0 0 0 * (solve 1 F ip b0).getD 0 0 = b0.getD 0 0 ∧ toFun 1 F 0 0 ≠ 0 :=
   decomp_solve_one a0 F ip h b0 hb
+
+/-- **accepted ⇔ nonsingular, every size** -/
+theorem c16_accept_iff_nonsingular (n : Nat) (hn : 2 ≤ n) (a0 : Array K) :
+    (∃ F ip, decomp n n n a0 = .ok (F, ip)) ↔
+      (∀ x : Nat → K, (∀ i, i < n → ∑ j ∈ range n, toFun n a0 i j * x j = 0) → ∀ j, j < n → x j = 0) := by
+  have := decomp_accept_iff_nonsingular n hn a0
+  unfold matVec rowSum at this
+  simp only [Finset.range_eq_Ico]
+  exact this
+
+/-- a refused matrix has a non-trivial kernel vector -/
+theorem c16_refused_singular (n : Nat) (hn : 2 ≤ n) (a0 : Array K) (h : decomp n n n a0 = .error .singular) :
+    ∃ x : Nat → K, (∃ j, j < n ∧ x j ≠ 0) ∧ ∀ i, i < n → ∑ j ∈ range n, toFun n a0 i j * x j = 0 := by
+  obtain ⟨x, hx, hk⟩ := decomp_singular_spec n hn a0 h
+  refine ⟨x, hx, fun i hi => ?_⟩
+  have := hk i hi
+  unfold matVec rowSum at this
+  rw [Finset.range_eq_Ico]
+  exact this
 
 /-- a zero first column is refused, whatever the size -/
 theorem c16_zero_first_column (n : Nat) (hn : 2 ≤ n) (a0 : Array K) (hz : ∀ i, i < n → toFun n a0 i 0 = 0) :
